@@ -543,6 +543,10 @@ func corpus() []*kase {
 		// raised value must be the one recorded (bound 1.0/1.0 on core 0, keep-bind, request +0, limit +1)
 		mk("realloc", 100, -1, node{Cap: two, Use: map[string]int{"0": 100, "1": 0}, Mem: 1000, MemUse: 10},
 			request{Keep: true, CPU: 0, CPULim: 1000}, 1, &workload{CPU: 1000, CPULim: 1000, Mem: 10, MemLim: 10, Map: map[string]int{"0": 100}, NUMAMem: map[string]int64{}}),
+		// both flags (keep-cpu-bind and cpu-bind) are still a keep-bind request: the workload on core 2 must
+		// not move to the free core 0
+		mk("realloc", 100, -1, node{Cap: map[string]int{"0": 100, "1": 100, "2": 100}, Use: map[string]int{"0": 0, "1": 0, "2": 100}, Mem: 1000, MemUse: 10},
+			request{Keep: true, Bind: true}, 1, &workload{CPU: 1000, CPULim: 1000, Mem: 10, MemLim: 10, Map: map[string]int{"2": 100}, NUMAMem: map[string]int64{}}),
 		// D23: fractional workload moved by keep-bind realloc
 		mk("realloc", 100, -1, node{Cap: two, Use: map[string]int{"0": 100, "1": 50}, Mem: 1000, MemUse: 10},
 			request{Keep: true}, 1, &workload{CPU: 1500, CPULim: 1500, Mem: 10, MemLim: 10, Map: map[string]int{"0": 100, "1": 50}, NUMAMem: map[string]int64{}}),
@@ -718,6 +722,18 @@ func TestGen(t *testing.T) {
 				case 1: // unbind
 					rq.Keep, rq.Bind = false, false
 				}
+			}
+			if !cpuDelta { // flag combinations on an unchanged request: both flags still mean "keep the binding"
+				switch r.Intn(10) {
+				case 0, 1, 2: // keep-cpu-bind and cpu-bind together
+					rq.Keep, rq.Bind = true, true
+				case 3: // cpu-bind only on an already bound workload (affinity map is still passed)
+					rq.Keep, rq.Bind = false, true
+				case 4: // neither flag: the workload is unbound
+					rq.Keep, rq.Bind = false, false
+				}
+			} else if rq.Keep && r.Chance(40) {
+				rq.Bind = true
 			}
 			emit(&kase{Op: op, Base: base, MaxShare: ms, Node: n, Req: rq, Count: 1, Origin: w})
 		}
